@@ -514,7 +514,193 @@ func runFree(c *c22Case, cov func(string)) (r caseResult) {
 	return r
 }
 
+// raceScenarios are the lock-order schedules of runRace.
+var raceScenarios = []string{"ok_notlast_vs_abort", "ok_last_vs_abort", "ok_vs_job_completion", "ok_vs_abort_together"}
+
+// runRace checks the lock order of the completion handler (j.mu) against the two code
+// paths that take c.mu and then j.mu (abortCurrentJob, completeCurrentJob).  A completion
+// handler is held at gate:complete - right after it has taken j.mu - until the other party
+// has taken c.mu and waits for j.mu; then it is released.  If the handler touches c.mu while
+// it holds j.mu both wait forever.  The last scenario starts handler and abort together,
+// without holding anything, many times.
+func runRace(c *c22Case, cov func(string)) (r caseResult) {
+	sc := raceScenarios[int(c.Seed)%len(raceScenarios)]
+	s, err := NewSim(c.Cfg, true)
+	if err != nil {
+		r.harness = "NewSim: " + err.Error()
+		return
+	}
+	d := &driver{s: s, c: c, answered: map[string]bool{}, cov: cov}
+	stuck := false
+	defer func() {
+		r.jobs = len(s.jobIDs)
+		s.Close(stuck)
+	}()
+	if cov != nil {
+		cov("race:" + sc)
+	}
+	fail := func(what, detail string) caseResult {
+		stuck = true
+		r.fail = d.failure(behav.Step{"ev": "Race", "kind": sc}, 0, what, "", detail)
+		r.trace = nil
+		return r
+	}
+	ungate := func() {
+		s.mu.Lock()
+		s.gated = false
+		s.mu.Unlock()
+		s.ReleaseListener()
+		for j := 1; j <= len(s.jobIDs); j++ {
+			s.ReleaseRunner(j, 0)
+		}
+	}
+	// start a job: ADD n3
+	if got := d.env(behav.Step{"ev": "Join", "n": "n3"}); got != "ok" {
+		return fail("wrong_return", "Join n3: "+got)
+	}
+	for k := 0; k < 8 && s.ListenerPos() != "gate:wait"; k++ {
+		s.ReleaseListener()
+		if !s.WaitListener(stepDeadline) {
+			return fail("listener_stuck", "listener did not reach the wait for the job result")
+		}
+	}
+	if !s.ReleaseRunner(1, stepDeadline) {
+		return fail("job_not_started", "run() did not start")
+	}
+	var pend []string
+	if !Poll(stepDeadline, func() bool {
+		pend = nil
+		for _, m := range s.B.Instr() {
+			pend = append(pend, m.Node)
+		}
+		return len(pend) > 0
+	}) {
+		r.harness = "race: the ADD job of this configuration sends no instruction"
+		return
+	}
+	time.Sleep(2 * time.Millisecond)
+	pend = nil
+	for _, m := range s.B.Instr() {
+		pend = append(pend, m.Node)
+	}
+	sort.Strings(pend)
+	id := s.JobID(1)
+	complete := func(node, kind string) string {
+		d.answered["1/"+node] = true
+		return d.env(behav.Step{"ev": "Deliver", "j": 1, "n": node, "kind": kind})
+	}
+	// run f in the background; result via channel
+	bg := func(f func() string) chan string {
+		ch := make(chan string, 1)
+		go func() { ch <- f() }()
+		return ch
+	}
+	waitCh := func(ch chan string, what string) (string, bool) {
+		select {
+		case v := <-ch:
+			return v, true
+		case <-time.After(stepDeadline):
+		}
+		if extend() {
+			select {
+			case v := <-ch:
+				return v, true
+			case <-time.After(4 * stepDeadline):
+			}
+		}
+		return what, false
+	}
+	_ = id
+	last := pend[len(pend)-1]
+	switch sc {
+	case "ok_notlast_vs_abort", "ok_last_vs_abort":
+		ungate() // the listener waits for the result on its own
+		held := pend[0]
+		if sc == "ok_last_vs_abort" {
+			for _, n := range pend[:len(pend)-1] {
+				if got := complete(n, "ok"); got != "ok" {
+					return fail("wrong_return", "completion of "+n+": "+got)
+				}
+			}
+			held = last
+		}
+		s.HoldNextCompletion()
+		h := bg(func() string { return complete(held, "ok") })
+		if !Poll(stepDeadline, s.CompletionHeld) {
+			return fail("handler_stuck", "completion handler did not reach j.mu")
+		}
+		a := bg(func() string { return d.env(behav.Step{"ev": "Abort"}) })
+		// the abort holds c.mu and waits for j.mu
+		Poll(200*time.Millisecond, func() bool { return s.ClusterLockBusy(3 * time.Millisecond) })
+		s.ReleaseCompletion()
+		if v, ok := waitCh(h, "completion handler"); !ok {
+			return fail("handler_stuck", "completion handler (holding j.mu) and ResizeAbort (holding c.mu) wait for each other: the handler did not return")
+		} else if v == "stuck" {
+			return fail("handler_stuck", "a handler racing for c.mu / j.mu did not return")
+		} else if v != "ok" && v != "err" {
+			return fail("panic", v)
+		}
+		if v, ok := waitCh(a, "abort"); !ok {
+			return fail("handler_stuck", "ResizeAbort did not return")
+		} else if v == "stuck" {
+			return fail("handler_stuck", "a handler racing for c.mu / j.mu did not return")
+		} else if v != "ok" && v != "err" {
+			return fail("panic", v)
+		}
+	case "ok_vs_job_completion":
+		// an error answer decides the job; the listener is held before completeCurrentJob
+		if got := complete(pend[0], "err"); got != "err" {
+			return fail("wrong_return", "error completion: "+got)
+		}
+		s.ReleaseListener()
+		if !s.WaitListener(stepDeadline) || s.ListenerPos() != "gate:result" {
+			return fail("listener_stuck", "listener did not receive the job result; at "+s.ListenerPos())
+		}
+		s.HoldNextCompletion()
+		h := bg(func() string { return complete(last, "ok") })
+		if !Poll(stepDeadline, s.CompletionHeld) {
+			return fail("handler_stuck", "completion handler did not reach j.mu")
+		}
+		ungate() // completeCurrentJob: takes c.mu, waits for j.mu in setState
+		Poll(200*time.Millisecond, func() bool { return s.ClusterLockBusy(3 * time.Millisecond) })
+		s.ReleaseCompletion()
+		if v, ok := waitCh(h, "completion handler"); !ok {
+			return fail("handler_stuck", "completion handler (holding j.mu) and completeCurrentJob (holding c.mu) wait for each other: the handler did not return")
+		} else if v == "stuck" {
+			return fail("handler_stuck", "a handler racing for c.mu / j.mu did not return")
+		} else if v != "ok" && v != "err" {
+			return fail("panic", v)
+		}
+	case "ok_vs_abort_together":
+		ungate()
+		for _, n := range pend[:len(pend)-1] {
+			if got := complete(n, "ok"); got != "ok" {
+				return fail("wrong_return", "completion of "+n+": "+got)
+			}
+		}
+		start := make(chan struct{})
+		h := bg(func() string { <-start; return complete(last, "ok") })
+		a := bg(func() string { <-start; return d.env(behav.Step{"ev": "Abort"}) })
+		close(start)
+		if v, ok := waitCh(h, "completion handler"); !ok || v == "stuck" {
+			return fail("handler_stuck", "completion handler started together with ResizeAbort did not return")
+		}
+		if v, ok := waitCh(a, "abort"); !ok || v == "stuck" {
+			return fail("handler_stuck", "ResizeAbort started together with a completion did not return")
+		}
+	}
+	clean, o, why := d.drain()
+	r.trace = traceOf(c.Cfg.Members, s.Events(), clean, o.State)
+	if !clean {
+		return fail("not_clean_after_drain", fmt.Sprintf("after the race the cluster did not return to NORMAL without a current job (%s): %s", why, behav.JSON(o)))
+	}
+	return r
+}
+
 func runCase(c *c22Case, cov func(string)) caseResult {
+	if c.Gran == "race" {
+		return runRace(c, cov)
+	}
 	if c.Gran == "free" {
 		return runFree(c, cov)
 	}
@@ -590,7 +776,7 @@ func TestC22(t *testing.T) {
 		}
 		res.Evaluations = 1
 		attempts := 1
-		if c.Gran == "free" {
+		if c.Gran == "free" || c.Gran == "race" {
 			attempts = 25 // a concurrent schedule is re-run; any failing run counts
 		}
 		for a := 0; a < attempts; a++ {
@@ -623,10 +809,10 @@ func TestC22(t *testing.T) {
 		}
 	}
 	var cases []*c22Case
-	if gran == "free" {
+	if gran == "free" || gran == "race" {
 		n := behav.EnvInt("VERIF_N", 100)
 		for i := 0; i < n; i++ {
-			cases = append(cases, &c22Case{Gran: "free", Cfg: cfg, Seed: behav.Seed()*1000003 + int64(i)})
+			cases = append(cases, &c22Case{Gran: gran, Cfg: cfg, Seed: behav.Seed()*1000003 + int64(i)})
 		}
 	} else {
 		for _, b := range behav.LoadEnv() {
@@ -682,7 +868,7 @@ func TestC22(t *testing.T) {
 			reran++
 			ResetWaitBudget()
 			attempts := 1
-			if cases[i].Gran == "free" {
+			if cases[i].Gran == "free" || cases[i].Gran == "race" {
 				attempts = 10
 			}
 			var again caseResult
